@@ -88,6 +88,10 @@ func Harness_C06_ContentAddress() {
 	_, perr := GetMultihashCode(padded)
 	verifrt.Assert(perr != nil && IsValidModelMultihash(w, padded) != nil && !IsSupportedMultihash(padded) && !IsComputedUsingMultihashAlgorithms(padded, []uint{0x12, 0x13}),
 		"a hash text with base64 padding appended is rejected as malformed")
+	// another text that decodes to the same bytes (unused low bits of the last character set) is not the model hash
+	if alt, changed := verifrt.AltBase64(h); changed {
+		verifrt.Assert(IsValidModelMultihash(w, alt) != nil, "a non-canonical base64 spelling of the hash is not the value's hash")
+	}
 	// single-point modification of the hash text: one letter behind the prefix changes case
 	if hv, herr := CalculateModelMultihash(v, code); herr == nil {
 		if hc, changed := verifrt.SwapCase(hv); changed {
